@@ -211,9 +211,24 @@ fn gen_response(rng: &mut Prng) -> (Response, bool) {
             (Response::Scrape(ScrapeResponse { transaction_id: TransactionId::new(i32s(rng)), torrent_stats }), rng.chance(1, 2))
         }
         _ => {
-            let msg = *rng.pick(&["", "Info hash not allowed", "Port can't be 0", "x", "h\u{e9}llo \u{1F600}"]);
+            // short texts the trackers use, and texts of boundary lengths (the message is the whole
+            // rest of the datagram, whatever its size)
+            let msg: String = if rng.chance(1, 2) {
+                rng.pick(&["", "Info hash not allowed", "Port can't be 0", "x", "h\u{e9}llo \u{1F600}"]).to_string()
+            } else {
+                let len = *rng.pick(&[31usize, 32, 33, 63, 64, 65, 127, 128, 129, 255, 256, 257, 1000, 1400]);
+                let mut m = String::new();
+                while m.len() < len {
+                    if rng.chance(1, 16) && m.len() + 2 <= len {
+                        m.push('\u{e9}');
+                    } else {
+                        m.push((b'a' + rng.below(26) as u8) as char);
+                    }
+                }
+                m
+            };
             (
-                Response::Error(ErrorResponse { transaction_id: TransactionId::new(i32s(rng)), message: msg.to_string().into() }),
+                Response::Error(ErrorResponse { transaction_id: TransactionId::new(i32s(rng)), message: msg.into() }),
                 rng.chance(1, 2),
             )
         }
